@@ -526,6 +526,26 @@ impl Run {
         }
     }
 
+    /// C09/C08: the clock advances by n units while a streaming read is stalled after k frames
+    pub fn op_read_slow(&mut self, ctx: Option<&str>, last: Option<&str>, lim: Option<u64>, k: u64, n: u64) {
+        if self.http || self.dead {
+            return;
+        }
+        let resp = self.call(json!({"op": "read_slow", "ctx": ctx, "last": last, "limit": lim, "k": k,
+            "advance_ms": n * UNIT_MS}));
+        if Self::failed(&resp) {
+            return;
+        }
+        self.t += n;
+        let frames: Vec<Value> = resp["frames"].as_array().cloned().unwrap_or_default();
+        let res: Vec<Value> = frames.iter().map(|f| self.abs_frame(f)).collect();
+        self.events.push(json!({"e": "slowread",
+            "ctx": ctx.map(idref).unwrap_or(json!(-1)),
+            "last": last.map(idref).unwrap_or(json!(-2)),
+            "lim": lim.map(|x| json!(x)).unwrap_or(json!(-1)),
+            "res": res, "k": resp["k"], "n": n}));
+    }
+
     pub fn op_get(&mut self, id: &str) {
         let resp = self.call(json!({"op": "get", "id": id}));
         if Self::failed(&resp) {
@@ -955,6 +975,13 @@ impl Run {
             "get" => {
                 let id = self.resolve(op["id"].as_i64().unwrap()).unwrap();
                 self.op_get(&id);
+            }
+            "slowread" => {
+                let ctx = self.resolve(op["ctx"].as_i64().unwrap());
+                let last = self.resolve(op["last"].as_i64().unwrap());
+                let lim = op["lim"].as_i64().unwrap();
+                self.op_read_slow(ctx.as_deref(), last.as_deref(), if lim < 0 { None } else { Some(lim as u64) },
+                    op["k"].as_u64().unwrap_or(0), op["n"].as_u64().unwrap_or(1));
             }
             "head" => {
                 let ctx = self.resolve(op["ctx"].as_i64().unwrap()).unwrap();
